@@ -57,6 +57,21 @@ let dispatch (op : string) (x : v) : v =
       of_opt (of_list (fun (k, p) -> L [of_z k; of_z p])) (M.filter_table_m BZ.minus_one t (to_list to_z names))
   | "ranges", [l] ->
       of_opt (fun ((a, b), c) -> L [of_xnum a; of_xnum b; of_xnum c]) (M.ranges_m (to_list to_xnum l))
+  | "fit_file", [nmin; lines] ->
+      let to_line (x : v) : M.lkind =
+        match x with
+        | L [S "s"; nd; id] -> M.LSource (to_nat nd, to_z id)
+        | L [S "e"] -> M.LEof
+        | L [S "x"] -> M.LError
+        | _ -> raise (Bad "line") in
+      of_opt (of_list of_z) (M.fit_file_m (to_nat nmin) (to_list to_line lines))
+  | "history", [mode; state; ops] ->
+      let st = to_list (fun x -> match x with
+                                 | L [nd; chi] -> let n = to_pos nd in List.map (fun c -> (n, c)) (to_list to_xnum chi)
+                                 | _ -> raise (Bad "result")) state in
+      let ops = to_list to_sel ops in
+      let (outs, fin) = (match mode with S "alias" -> M.history_alias st ops | _ -> M.history_copy st ops) in
+      L [of_list (of_list of_nat) outs; of_list of_nat fin]
   | "ndist", [l; step] -> of_z (M.ndist (to_q l) (to_q step))
   | "gridlog", [lo; hi; n] -> of_list of_q (M.gridlog_m (to_q lo) (to_q hi) (to_nat n))
   | "rank", [chi] -> of_list of_nat (M.rank_m (to_list to_xnum chi))
